@@ -262,7 +262,7 @@ func c09types() []c09type {
 
 // c09pin sets every slot/epoch-like field: the one the domain must be derived from to an epoch in the
 // electra fork, the others to epochs in the deneb resp. fulu fork.
-func c09pin(sd core.SignedData, spe uint64, v int) (core.SignedData, error) {
+func c09pin(sd core.SignedData, spe uint64, v int, c09EpochMain uint64) (core.SignedData, error) {
 	// validator v's slots are shifted by 2v inside the same epoch: objects whose only signed content is
 	// the slot/epoch still differ between the validators (and from their altered twins, which add 1)
 	slot := func(epoch, off uint64) eth2p0.Slot { return eth2p0.Slot(epoch*spe + (off+2*uint64(v))%spe) }
@@ -272,7 +272,7 @@ func c09pin(sd core.SignedData, spe uint64, v int) (core.SignedData, error) {
 		if err != nil {
 			return nil, err
 		}
-		data.Target.Epoch, data.Source.Epoch, data.Slot = c09EpochMain, c09EpochLow, slot(c09EpochHigh, 3)
+		data.Target.Epoch, data.Source.Epoch, data.Slot = eth2p0.Epoch(c09EpochMain), c09EpochLow, slot(c09EpochHigh, 3)
 		return d, nil
 	case core.VersionedSignedProposal:
 		m, err := c09proposalMsg(&d)
@@ -282,10 +282,10 @@ func c09pin(sd core.SignedData, spe uint64, v int) (core.SignedData, error) {
 		m.FieldByName("Slot").SetUint(uint64(slot(c09EpochMain, 5)))
 		return d, nil
 	case core.SignedRandao:
-		d.SignedEpoch.Epoch = eth2p0.Epoch(c09EpochMain + 2*v)
+		d.SignedEpoch.Epoch = eth2p0.Epoch(c09EpochMain + 2*uint64(v))
 		return d, nil
 	case core.SignedVoluntaryExit:
-		d.Message.Epoch = c09EpochMain
+		d.Message.Epoch = eth2p0.Epoch(c09EpochMain)
 		return d, nil
 	case core.VersionedSignedValidatorRegistration:
 		return d, nil
@@ -434,15 +434,16 @@ type c09val struct {
 }
 
 type c09fix struct {
-	t        *testing.T
-	ctx      context.Context
-	bmock    beaconmock.Mock
-	spe      uint64
-	spec     map[string]any
-	vals     [2]c09val
-	domains  map[string]eth2p0.Domain
-	verified map[string]bool // memo of independent verifications
-	strict   bool
+	t         *testing.T
+	ctx       context.Context
+	bmock     beaconmock.Mock
+	spe       uint64
+	spec      map[string]any
+	vals      [2]c09val
+	domains   map[string]eth2p0.Domain
+	verified  map[string]bool          // memo of independent verifications
+	clDomains map[string]eth2p0.Domain // healthy answers of the fault-scriptable client (zz_verif_c09_seq_test.go)
+	strict    bool
 }
 
 func c09newFix(t *testing.T) (*c09fix, error) {
@@ -528,18 +529,32 @@ type c09tfix struct {
 	sr      map[string][32]byte
 	sigs    map[string]tbls.Signature
 	parts   map[string]core.SignedData
+
+	// only used by the sequence / fault dimensions (zz_verif_c09_seq_test.go)
+	views     map[int]*c09tfix         // payload views: 1 = altered twin honestly signed, 2 = payload pinned into another fork
+	xdom      signing.DomainName       // "all-cross-duty": domain and epoch of the partner duty type whose message root is identical
+	xepoch    func(v int) eth2p0.Epoch //
+	listRoots map[string][][32]byte
 }
 
 func (f *c09fix) newTypeFix(ty c09type) (*c09tfix, error) {
+	return f.newTypeFixAt(ty, c09EpochMain, nil)
+}
+
+// newTypeFixAt: the signing epoch is pinned to `main`; post (optional) adjusts the pinned object of validator v.
+func (f *c09fix) newTypeFixAt(ty c09type, main uint64, post func(sd core.SignedData, v int) core.SignedData) (*c09tfix, error) {
 	tf := &c09tfix{f: f, ty: ty, sr: map[string][32]byte{}, sigs: map[string]tbls.Signature{}, parts: map[string]core.SignedData{}}
 	for v := 0; v < 2; v++ {
 		g, err := ty.Generate(f.t)
 		if err != nil {
 			return nil, err
 		}
-		sd, err := c09pin(g, f.spe, v)
+		sd, err := c09pin(g, f.spe, v, main)
 		if err != nil {
 			return nil, err
+		}
+		if post != nil {
+			sd = post(sd, v)
 		}
 		al, err := c09alter(sd)
 		if err != nil {
@@ -593,8 +608,18 @@ func (tf *c09tfix) signingRoot(v int, variant string) ([32]byte, error) {
 		}
 	case "wepoch":
 		epoch = c09EpochWrong
+	case "xduty": // what a VC signs for the partner duty type with the identical message root
+		if tf.xepoch == nil {
+			return [32]byte{}, fmt.Errorf("type %s has no partner duty type", tf.ty.Name)
+		}
+		dom, epoch = tf.xdom, tf.xepoch(v)
 	}
-	r, err := signing.GetDataRoot(f.ctx, f.bmock, dom, epoch, root)
+	var r [32]byte
+	if variant == "zdom" { // signed under the all-zero domain
+		r, err = (&eth2p0.SigningData{ObjectRoot: root, Domain: eth2p0.Domain{}}).HashTreeRoot()
+	} else {
+		r, err = signing.GetDataRoot(f.ctx, f.bmock, dom, epoch, root)
+	}
 	if err != nil {
 		return [32]byte{}, err
 	}
@@ -739,12 +764,12 @@ func (tf *c09tfix) part(v, keyOf, share int, objVar, sigVar, mangle string) (cor
 // list builds the partial signature list of validator v for the case.
 func (tf *c09tfix) list(v int, shares []int, corrs []c09corr) ([]core.ParSignedData, error) {
 	type spec struct {
-		keyOf, share, idx      int
-		objVar, sigVar, mangle string
+		objOf, keyOf, share, idx int
+		objVar, sigVar, mangle   string
 	}
 	sp := make([]spec, len(shares))
 	for i, s := range shares {
-		sp[i] = spec{keyOf: v, share: s, idx: s, objVar: "orig", sigVar: "orig"}
+		sp[i] = spec{objOf: v, keyOf: v, share: s, idx: s, objVar: "orig", sigVar: "orig"}
 	}
 	drop := -1
 	for _, k := range corrs {
@@ -789,6 +814,18 @@ func (tf *c09tfix) list(v int, shares []int, corrs []c09corr) ([]core.ParSignedD
 			for i := range sp {
 				sp[i].sigVar = "wepoch"
 			}
+		case "all-foreign-list": // sequence/fault dimensions: the other validator's complete, valid list under this validator's key
+			for i := range sp {
+				sp[i].objOf, sp[i].keyOf = 1-v, 1-v
+			}
+		case "all-zero-domain": // sequence/fault dimensions: every share signed under the all-zero domain
+			for i := range sp {
+				sp[i].sigVar = "zdom"
+			}
+		case "all-cross-duty": // sequence dimension: the signatures of the partner duty type (identical message root, other domain)
+			for i := range sp {
+				sp[i].sigVar = "xduty"
+			}
 		default:
 			return nil, fmt.Errorf("unknown corruption %q", k.Kind)
 		}
@@ -798,7 +835,7 @@ func (tf *c09tfix) list(v int, shares []int, corrs []c09corr) ([]core.ParSignedD
 	}
 	out := make([]core.ParSignedData, 0, len(sp))
 	for i, s := range sp {
-		p, err := tf.part(v, s.keyOf, s.share, s.objVar, s.sigVar, s.mangle)
+		p, err := tf.part(s.objOf, s.keyOf, s.share, s.objVar, s.sigVar, s.mangle)
 		if err != nil {
 			return nil, err
 		}
@@ -845,18 +882,9 @@ func (tf *c09tfix) run(c c09case) (c09out, error) {
 			return nil
 		})
 	}
-	var lists [2][]core.ParSignedData
-	for v := 0; v < 2; v++ {
-		if c.Vals == 1 && v != c.Target {
-			continue
-		}
-		var corrs []c09corr
-		if v == c.Target {
-			corrs = c.Corrs
-		}
-		if lists[v], err = tf.list(v, c.List, corrs); err != nil {
-			return o, err
-		}
+	lists, err := tf.buildLists(c)
+	if err != nil {
+		return o, err
 	}
 	runtime.VerifSetMapRot(true, uint64(c.MapRot))
 	set := map[core.PubKey][]core.ParSignedData{}
@@ -868,6 +896,23 @@ func (tf *c09tfix) run(c c09case) (c09out, error) {
 	o.err = agg.Aggregate(tf.f.ctx, core.Duty{Slot: 1, Type: tf.ty.Duty}, set)
 	runtime.VerifSetMapRot(false, 0)
 	return o, nil
+}
+
+// buildLists builds the partial signature lists of the validators taking part in the call.
+func (tf *c09tfix) buildLists(c c09case) (lists [2][]core.ParSignedData, err error) {
+	for v := 0; v < 2; v++ {
+		if c.Vals == 1 && v != c.Target {
+			continue
+		}
+		var corrs []c09corr
+		if v == c.Target {
+			corrs = c.Corrs
+		}
+		if lists[v], err = tf.list(v, c.List, corrs); err != nil {
+			return lists, err
+		}
+	}
+	return lists, nil
 }
 
 type c09viol struct{ sig, desc string }
@@ -1170,6 +1215,13 @@ func TestVerifC09(t *testing.T) {
 	}
 
 	if r.ReplayPath != "" {
+		var m struct {
+			Mode string `json:"mode"`
+		}
+		if err := r.ReplayCase(&m); err == nil && m.Mode != "" {
+			c09replayX(r, f, types)
+			return
+		}
 		var c c09case
 		if err := r.ReplayCase(&c); err != nil {
 			r.Note("replay: " + err.Error())
@@ -1232,4 +1284,7 @@ func TestVerifC09(t *testing.T) {
 		// the per-type caches are not needed any more
 		delete(tfs, ty.Name)
 	}
+
+	// operation sequences on one Aggregator instance and beacon-node fault scripts (zz_verif_c09_seq_test.go)
+	c09runX(r, f, types, thorough)
 }
